@@ -561,11 +561,9 @@ void* dyn_array_get_struct(DynArray* arr, int64_t index) {
     assert(arr != NULL && "DynArray: NULL array");
     assert(arr->elem_type == ELEM_STRUCT && "DynArray: Type mismatch");
     
-    if (index < 0 || index >= arr->length) {
-        fprintf(stderr, "DynArray: Index out of bounds: %lld (length: %lld)\n", 
-                (long long)index, (long long)arr->length);
-        return NULL;
-    }
+    /* Same policy as every other element accessor: an index outside [0, length) ends the run
+     * (this used to print a message and return NULL, which the emitted code dereferences). */
+    DYN_ARRAY_CHECK_INDEX(arr, index);
     
     /* Return pointer to struct in array */
     return (uint8_t*)arr->data + (index * arr->elem_size);
@@ -578,11 +576,9 @@ void dyn_array_set_struct(DynArray* arr, int64_t index, const void* struct_ptr, 
     assert(arr->elem_type == ELEM_STRUCT && "DynArray: Type mismatch");
     assert(arr->elem_size == struct_size && "DynArray: Struct size mismatch");
     
-    if (index < 0 || index >= arr->length) {
-        fprintf(stderr, "DynArray: Index out of bounds: %lld (length: %lld)\n", 
-                (long long)index, (long long)arr->length);
-        return;
-    }
+    /* Same policy as every other element setter: an index outside [0, length) ends the run
+     * (this used to print a message and carry on with the store dropped). */
+    DYN_ARRAY_CHECK_INDEX(arr, index);
     
     /* Copy struct into array (memmove: array_set xs i (at xs i) passes the element itself) */
     void* dest = (uint8_t*)arr->data + (index * arr->elem_size);
